@@ -1,5 +1,6 @@
 import MJ.Model.Slice
 import MJ.Model.PySlice
+import MJ.Model.Subscript
 /-! Line driver for C09: `slice kind len a b c form` / `index kind len i form` → model and spec. -/
 open MJ MJ.Slice
 
@@ -72,6 +73,216 @@ def runChain (useModel : Bool) (kind : String) (len : Nat) (ops : List ChainOp) 
       | _ => "bad-case"
   go (List.range len) true ops
 
+
+/-! ## glue streams: `gs` / `gi` / `ga` / `long` -/
+namespace Glue
+open MJ.Sub
+
+def hexDigit (c : Char) : Option Nat :=
+  if '0' ≤ c ∧ c ≤ '9' then some (c.toNat - '0'.toNat)
+  else if 'a' ≤ c ∧ c ≤ 'f' then some (c.toNat - 'a'.toNat + 10) else none
+
+def unhex (s : String) : Option (List UInt8) :=
+  let rec go : List Char → Option (List UInt8)
+    | [] => some []
+    | a :: b :: rest => do
+      let x ← hexDigit a
+      let y ← hexDigit b
+      let r ← go rest
+      pure (UInt8.ofNat (x * 16 + y) :: r)
+    | _ => none
+  go s.toList
+
+def hexOf (bs : List UInt8) : String :=
+  let d (n : Nat) : Char := if n < 10 then Char.ofNat (48 + n) else Char.ofNat (87 + n)
+  String.ofList (bs.flatMap fun b => [d (b.toNat / 16), d (b.toNat % 16)])
+
+def splitTag (spec : String) : String × String :=
+  match spec.splitOn ":" with
+  | [t] => (t, "")
+  | t :: rest => (t, ":".intercalate rest)
+  | [] => ("", "")
+
+def parseMKey (k : String) : Option MKey :=
+  match k.splitOn "=" with
+  | ["T"] => some (.bool true)
+  | ["F"] => some (.bool false)
+  | ["i", n] => n.toInt?.map MKey.int
+  | ["sm", h] => (unhex h).map MKey.str
+  | ["sn", h] => (unhex h).map MKey.str
+  | _ => none
+
+def enumFrom {β : Type} (i : Nat) : List β → List (β × Nat)
+  | [] => []
+  | x :: xs => (x, i) :: enumFrom (i + 1) xs
+
+def parseVal (spec : String) : Option (Val Nat) :=
+  let (tag, arg) := splitTag spec
+  match tag with
+  | "U" => some .undef
+  | "Z" => some .none
+  | "_" => some .none
+  | "T" => some (.bool true)
+  | "F" => some (.bool false)
+  | "i" => arg.toInt?.map fun x => .num (.i64 x)
+  | "u" => arg.toNat?.map fun x => .num (.u64 x)
+  | "I" => arg.toInt?.map fun x => .num (.i128 x)
+  | "W" => arg.toNat?.map fun x => .num (.u128 x)
+  | "f" => arg.toNat?.map fun x => .num (.f64 x)
+  | "sn" => (unhex arg).map (Val.str .normal)
+  | "sm" => (unhex arg).map fun bs => Val.str (if bs.length ≤ MJ.Gen.smallStrCap then .small else .normal) bs
+  | "sa" => (unhex arg).map (Val.str .safe)
+  | "b" => (unhex arg).map Val.bytes
+  | "L" => arg.toNat?.map fun n => .seq (List.range n)
+  | "D" => arg.toNat?.map fun n => .seq (List.range n)
+  | "CS" => arg.toNat?.map fun n => .seq (List.range n)
+  | "P" => arg.toNat?.map fun n => .tuple (List.range n)
+  | "E" => arg.toNat?.map fun n => .iter true (List.range n)
+  | "R" => arg.toNat?.map fun n => .iter true (List.range n)
+  | "CI" => arg.toNat?.map fun n => .iter true (List.range n)
+  | "X" => arg.toNat?.map fun n => .iter false (List.range n)
+  | "O" => arg.toNat?.map fun n => .once (List.range n)
+  | "M" =>
+    let ks := (arg.splitOn ",").filter (· ≠ "")
+    (ks.mapM parseMKey).map fun mks => .map (enumFrom 0 mks)
+  | "MS" =>
+    let ks := (arg.splitOn ",").filter (· ≠ "")
+    (ks.mapM unhex).map fun mks => .map (enumFrom 0 (mks.map MKey.str))
+  | "Q" => some .plain
+  | _ => none
+
+def parseMode : String → Option Mode
+  | "L" => some .lenient
+  | "C" => some .chainable
+  | "S" => some .semiStrict
+  | "X" => some .strict
+  | _ => none
+
+def showErr (e : Err) : String := s!"err:{e.kind}|{e.detail}"
+
+def showVal : Val Nat → String
+  | .str r bs => (if r = .safe then "safestr:" else "str:") ++ hexOf bs
+  | .bytes bs => "bytes:" ++ hexOf bs
+  | .seq xs => "seq:" ++ joinNats xs
+  | .tuple xs => "tuple:" ++ joinNats xs
+  | .iter sized xs => (if sized then "iterS:" else "iterU:") ++ joinNats xs
+  | .undef => "undef"
+  | .none => "none"
+  | _ => "other"
+
+def showItem : Item Nat → String
+  | .elem n => s!"elem:{n}"
+  | .chr c => "chr:" ++ hexOf (String.utf8EncodeChar c)
+  | .byte b => s!"byte:{b.toNat}"
+  | .undef => "undef"
+
+def showSlice : Chk (Except Err (Val Nat)) → String
+  | .panic => "panic"
+  | .ok (.error e) => showErr e
+  | .ok (.ok v) => showVal v
+
+def showGet : Except Err (Item Nat) → String
+  | .error e => showErr e
+  | .ok it => showItem it
+
+/-! long sequences -/
+def longChr (i : Nat) : Char :=
+  let q := i / 4
+  match i % 4 with
+  | 0 => Char.ofNat (0x61 + q % 26)
+  | 1 => Char.ofNat (0xe0 + q % 32)
+  | 2 => Char.ofNat (0x4e00 + q % 1000)
+  | _ => Char.ofNat (0x1f600 + q % 64)
+
+def longByte (i : Nat) : UInt8 := UInt8.ofNat ((i * 7 + 3) % 256)
+
+def mkLong (kind : String) (len : Nat) : Option (Val Nat) :=
+  let cs := (List.range len).map longChr
+  match kind with
+  | "strn" => some (.str .normal (encode cs))
+  | "strm" => some (let bs := encode cs; .str (if bs.length ≤ MJ.Gen.smallStrCap then .small else .normal) bs)
+  | "stra" => some (.str .safe (encode cs))
+  | "bytes" => some (.bytes ((List.range len).map longByte))
+  | "list" => some (.seq (List.range len))
+  | "deque" => some (.seq (List.range len))
+  | "tuple" => some (.tuple (List.range len))
+  | "itersized" => some (.iter true (List.range len))
+  | "range" => some (.iter true (List.range len))
+  | "iterunsized" => some (.iter false (List.range len))
+  | "oneshot" => some (.once (List.range len))
+  | _ => none
+
+def digest (cls : String) (xs : List Nat) : String :=
+  let h : UInt64 := xs.foldl (fun h x => (h ^^^ UInt64.ofNat x) * 0x100000001b3) 0xcbf29ce484222325
+  s!"{cls}#{xs.length}#{h.toNat}#{joinNats (xs.take 6)}"
+
+def showLong : Chk (Except Err (Val Nat)) → String
+  | .panic => "panic"
+  | .ok (.error e) => showErr e
+  | .ok (.ok (.str r bs)) => digest (if r = .safe then "safestr" else "str") ((chars bs).map Char.toNat)
+  | .ok (.ok (.bytes bs)) => digest "bytes" (bs.map UInt8.toNat)
+  | .ok (.ok (.tuple xs)) => digest "tuple" xs
+  | .ok (.ok (.seq xs)) => digest "list" xs
+  | .ok (.ok (.iter _ xs)) => digest "list" xs
+  | .ok (.ok _) => "other"
+
+/-- a decimal integer as the narrowest of I64/U64/I128/U128 holding it -/
+def intVal (s : String) : Option (Val Nat) :=
+  if s = "_" then some .none else
+  s.toInt?.map fun x =>
+    if i64Min ≤ x ∧ x ≤ i64Max then .num (.i64 x)
+    else if 0 ≤ x ∧ x ≤ usizeMax then .num (.u64 x.toNat)
+    else if -170141183460469231731687303715884105728 ≤ x ∧ x ≤ 170141183460469231731687303715884105727 then .num (.i128 x)
+    else .num (.u128 x.toNat)
+
+def handleLong (kind len a b c : String) : String :=
+  match len.toNat? with
+  | none => "bad-case"
+  | some len =>
+    match mkLong kind len with
+    | none => "bad-case"
+    | some v =>
+      if c.startsWith "i" then
+        match intVal (c.drop 1).toString with
+        | some k =>
+          match vmGetItem .lenient v k with
+          | .error e => showErr e
+          | .ok (.elem n) => s!"elem:{n}"
+          | .ok (.chr ch) => s!"chr:{ch.toNat}"
+          | .ok (.byte x) => s!"elem:{x.toNat}"
+          | .ok .undef => "undef"
+        | none => "bad-case"
+      else
+        match intVal a, intVal b, intVal c with
+        | some a, some b, some c => showLong (vmSlice .lenient v a b c)
+        | _, _, _ => "bad-case"
+
+def handle (f : List String) : String :=
+  match f with
+  | ["gs", mode, _entry, vs, a, b, c] =>
+    match parseMode mode, parseVal vs, parseVal a, parseVal b, parseVal c with
+    | some m, some v, some a, some b, some c => showSlice (vmSlice m v a b c)
+    | _, _, _, _, _ => "bad-case"
+  | ["gi", mode, entry, vs, k] =>
+    match parseMode mode, parseVal vs, parseVal k with
+    | some m, some v, some k =>
+      if entry = "api" then showGet (getItem v k)
+      else if entry = "apiidx" then
+        match k with
+        | .num (.u64 n) => showGet (getItemByIndex v n)
+        | _ => "bad-case"
+      else showGet (vmGetItem m v k)
+    | _, _, _ => "bad-case"
+  | ["ga", mode, entry, vs, name] =>
+    match parseMode mode, parseVal vs, unhex name with
+    | some m, some v, some name =>
+      if entry = "api" then showGet (getAttr v name) else showGet (vmGetAttr m v name)
+    | _, _, _ => "bad-case"
+  | ["long", kind, len, a, b, c] => handleLong kind len a b c
+  | _ => "bad-case"
+
+end Glue
+
 def handle (line : String) : String :=
   let case := (line.splitOn "\t").head!
   match case.trimAscii.toString.splitOn " " with
@@ -94,6 +305,10 @@ def handle (line : String) : String :=
     match len.toNat?, parseChain suffix with
     | some len, some ops => s!"{case}\t{runChain true kind len ops}\t{runChain false kind len ops}"
     | _, _ => s!"{case}\tbad-case\tbad-case"
+  | "gs" :: _ | "gi" :: _ | "ga" :: _ | "long" :: _ =>
+    let r := Glue.handle (case.trimAscii.toString.splitOn " ")
+    s!"{case}\t{r}\t-"
+  | "meta" :: _ => s!"{case}\t-\t-"
   | _ => s!"{case}\tbad-case\tbad-case"
 
 partial def loop (h : IO.FS.Stream) (out : IO.FS.Stream) : IO Unit := do
